@@ -193,3 +193,47 @@ Definition prop_rt (input obs : val) : val :=
               if readable && negb (tag_is sv "ok" && roots_ok (vnth 1 sv) && gets_are (vnth 2 sv) stored)
               then rt_fail "readable-storage-read-back-differs"
               else VT "ok".
+
+(* ---- kind "rtload": many-block archives through the sequential readers only --------------------------
+   (the writers' sessions and the random-access stores are quadratic in the extracted list model; the
+   root loader's batching needs > 1000 blocks)
+   input  = (roots blocks file)   file = what a real writer produced from the distinct blocks; the harness
+            has checked that every block hashes to its CID, which is the hash oracle of these cases (a
+            2005-entry table would make every lookup linear)
+   output = (window-length (count first last end) loadslow loadfast) *)
+Definition v_scan_summary (s : scan_out) : val :=
+  VL [VN (N.of_nat (length (s_blocks s)));
+      match s_blocks s with b :: _ => v_block b | [] => VL [] end;
+      v_block (last (s_blocks s) ([], []));
+      v_err (s_end s)].
+
+Definition run_rtload (input : val) : val :=
+  let hok : bytes -> bytes -> option bool := fun _ _ => Some true in
+  let hdr := hdr_lookup [] in
+  let file := vB (vnth 2 input) in
+  let w := match rt_window hdr file with Ok b => b | Err _ => [] end in
+  VL [VN (blen w);
+      match br_read_all hok hdr rt_ropts file with
+      | Err e => VL [VT "openerr"; v_err e]
+      | Ok (_, _, s) => v_scan_summary s
+      end;
+      rt_load hok hdr false w; rt_load hok hdr true w].
+
+Definition prop_rtload (input obs : val) : val :=
+  let roots := vcids (vnth 0 input) in
+  let bs := vblocks (vnth 1 input) in
+  let file := vB (vnth 2 input) in
+  let payload := payload_opt (Some roots) bs in
+  let w := match rt_window (hdr_lookup []) file with Ok b => b | Err _ => [] end in
+  if negb (bytes_eqb w payload) then rt_fail "payload-differs"
+  else
+    let br := vnth 1 obs in
+    if negb (N.eqb (vN (vnth 0 br)) (N.of_nat (length bs)) &&
+             blocks_eq (vblocks (VL [vnth 1 br; vnth 2 br]))
+                       [hd ([], []) bs; last bs ([], [])] && tag_is (VL [vnth 3 br]) "eof")
+    then rt_fail "block-reader-read-back-differs"
+    else
+      let chk_load (lv : val) : bool :=
+        tag_is (vnth 0 lv) "ok" && cids_eq (vcids (vnth 1 (vnth 0 lv))) roots &&
+        blocks_eq (concat (map vblocks (vL (vnth 1 lv)))) bs in
+      if chk_load (vnth 2 obs) && chk_load (vnth 3 obs) then VT "ok" else rt_fail "loadcar-read-back-differs".
